@@ -545,6 +545,7 @@ class Beam(_Simu):
         dof_n = self.structure.dof_n
         Nn = self.mesh.Nn
         dofs = Nn * dof_n
+        onNodes = True  # where the values below are stored
 
         if result in ["ux", "uy", "uz", "rx", "ry", "rz"]:
             values_n = self.displacement.reshape(Nn, -1)
@@ -570,6 +571,7 @@ class Beam(_Simu):
             values = force_n[:, index]
 
         elif result in ["N", "Mx", "My", "Mz", "Ty", "Tz"]:
+            onNodes = False
             groupElem = self.mesh.groupElem
             dim = self.structure.dim
 
@@ -611,22 +613,26 @@ class Beam(_Simu):
                 values = forces_np[:, :, index].mean(axis=1)  # (Ne,) element means
 
         elif result in ["Sxx", "Syy", "Szz", "Syz", "Sxz", "Sxy"]:
+            onNodes = False
             Epsilon_e_pg = self._Calc_Epsilon_e_pg(self.displacement)
             Sigma_e = self._Calc_Sigma_e_pg(Epsilon_e_pg).mean(1)
             index = self._indexResult(result)
             values = Sigma_e[:, index]
 
         elif result in ["ux'", "rx'", "ry'", "rz'"]:
+            onNodes = False
             Epsilon_e = self._Calc_Epsilon_e_pg(self.displacement).mean(1)
             index = self._indexResult(result)
             values = Epsilon_e[:, index]
 
         elif result == "Strain":
             # generalised strains, see _Calc_Epsilon_e_pg
+            onNodes = False
             values = np.asarray(self._Calc_Epsilon_e_pg(self.displacement).mean(1))
 
         elif result == "Stress":
             # see _Calc_Sigma_e_pg
+            onNodes = False
             Epsilon_e_pg = self._Calc_Epsilon_e_pg(self.displacement)
             values = np.asarray(self._Calc_Sigma_e_pg(Epsilon_e_pg).mean(1))
 
@@ -636,7 +642,7 @@ class Beam(_Simu):
 
         # end cases ----------------------------------------------------
 
-        return self.Results_Reshape_values(values, nodeValues)
+        return self.Results_Reshape_values(values, nodeValues, onNodes)
 
     def _indexResult(self, result: str) -> int:
         # "Beam1D" : ["ux" "fx"]
